@@ -105,6 +105,18 @@ check('C14', 'locate/restart sim',
       'DESIGN.md 3.3')
 
 
+ENGINES.append(
+    {'name': 'work-list sim', 'path': '/verif/checks/c17_worklist.py',
+     'serves_properties': ['C17'],
+     'kind_free_text': 'real GenerateRxnNet + RDKit reactions (rules as reaction SMARTS or RING text) under a simulated step clock restricted to GenRxnNet.py/ReactionQuery.py; schedules perturbed by rule order, seed order and seed atom order; reference closure by BFS over hand-rolled labelled multigraphs'})
+
+check('C17', 'work-list sim',
+      'Schedule search over the work list: each (seed set, rule set) is run under several schedules (every order of the rules for the small exhaustive part; seeded rule/seed/atom orders and SMARTS-vs-RING rule texts for larger ones) under a deterministic step clock. Every call must terminate within a budget derived from the size of the reference closure (overruns are re-run at 20x before being reported), return each species once, contain every seed, equal the independent breadth-first closure exactly, and return the same set under every schedule. The part over seeds with <= 2 heavy atoms is exhaustive; the rest is sampling.',
+      'Trusts the reference closure (netmodel.py) as the meaning of the rules on acyclic C/H/O species with explicit hydrogens; seeds are distinct (a set) and acyclic; the step clock does not see RDKit (C++), a hang inside it would surface as a harness error by the wall-clock kill-switch.',
+      'deterministic simulation: simulated step clock (bounded liveness) + schedule perturbation of the work list, refinement against a BFS reference closure',
+      'DESIGN.md 3.5')
+
+
 def build(claimed):
     man = {
         'version': 1,
